@@ -16,6 +16,8 @@ import (
 	datypes "github.com/dymensionxyz/dymension/v3/x/delayedack/types"
 	eibctypes "github.com/dymensionxyz/dymension/v3/x/eibc/types"
 	rollapptypes "github.com/dymensionxyz/dymension/v3/x/rollapp/types"
+	dymnstypes "github.com/dymensionxyz/dymension/v3/x/dymns/types"
+	irotypes "github.com/dymensionxyz/dymension/v3/x/iro/types"
 	seqtypes "github.com/dymensionxyz/dymension/v3/x/sequencer/types"
 )
 
@@ -365,7 +367,193 @@ func c19Exec2(r *Run, line string, f []string) string {
 		a := string(unhex(f[1]))
 		return Hex(seqtypes.SequencerKey(a)) + " " + Hex(seqtypes.ProposerByRollappKey(a)) + " " + Hex(seqtypes.SuccessorByRollappKey(a))
 	}
+	return c19Exec3(r, line, f)
+}
+
+// ---- decimal identifiers, IRO denoms ----------------------------------------------------------------
+
+var c19AssetTypes = map[string]dymnstypes.AssetType{"1": dymnstypes.TypeName, "2": dymnstypes.TypeAlias}
+
+// c19BoClass: which check of BuyOrder.Validate an id stops at, for an order of the given asset type
+func c19BoClass(id string, at dymnstypes.AssetType) string {
+	bo := dymnstypes.BuyOrder{Id: id, AssetType: at, AssetId: "abc"}
+	err := bo.Validate()
+	if err == nil {
+		return "pass"
+	}
+	m := err.Error()
+	switch {
+	case strings.Contains(m, "ID of offer"):
+		return "invalid"
+	case strings.Contains(m, "mismatch type of Buy-Order ID prefix"):
+		return "mismatch"
+	}
+	return "pass" // the id checks passed; a later field of the (deliberately incomplete) order fails
+}
+
+var c19CreatedIds = map[string]string{}
+
+func c19Exec3(r *Run, line string, f []string) string {
+	u := func(i int) uint64 { v, _ := strconv.ParseUint(f[i], 10, 64); return v }
+	switch f[0] {
+	case "dec":
+		return Hex([]byte(strconv.FormatUint(u(1), 10)))
+	case "pu64":
+		v, err := strconv.ParseUint(string(unhex(f[1])), 10, 64)
+		if err != nil {
+			return "err"
+		}
+		return fmt.Sprintf("ok %d", v)
+	case "boid":
+		at := c19AssetTypes[f[1]]
+		n := u(2)
+		id, panicked := "", false
+		func() {
+			defer func() {
+				if recover() != nil {
+					panicked = true
+				}
+			}()
+			id = dymnstypes.CreateBuyOrderId(at, n)
+		}()
+		if panicked {
+			if n != 0 {
+				r.Violate("C19/buy_order_id/create-panics-on-positive-number", fmt.Sprintf("type %v n %d", at, n), line)
+			}
+			return "panic"
+		}
+		// monitors (model independent): valid; decomposes back to (type, n); one id names one (type, n)
+		if !dymnstypes.IsValidBuyOrderId(id) {
+			r.Violate("C19/buy_order_id/created-id-invalid", id, line)
+		}
+		pfx := map[string]dymnstypes.AssetType{dymnstypes.BuyOrderIdTypeDymNamePrefix: dymnstypes.TypeName, dymnstypes.BuyOrderIdTypeAliasPrefix: dymnstypes.TypeAlias}
+		back, err := strconv.ParseUint(id[2:], 10, 64)
+		if t2, ok := pfx[id[:2]]; !ok || t2 != at || err != nil || back != n {
+			r.Violate("C19/buy_order_id/roundtrip", fmt.Sprintf("id %q does not give back (%v, %d)", id, at, n), line)
+		}
+		if c19BoClass(id, at) != "pass" {
+			r.Violate("C19/buy_order_id/own-type-rejected", id, line)
+		}
+		for _, other := range c19AssetTypes {
+			if other != at && c19BoClass(id, other) != "mismatch" {
+				r.Violate("C19/buy_order_id/other-type-accepted", id, line)
+			}
+		}
+		key := fmt.Sprintf("%d/%d", at, n)
+		if prev, ok := c19CreatedIds[id]; ok && prev != key {
+			r.Violate("C19/buy_order_id/collision", fmt.Sprintf("%q names %s and %s", id, prev, key), line)
+		}
+		c19CreatedIds[id] = key
+		return Hex([]byte(id))
+	case "bovalid":
+		id := string(unhex(f[1]))
+		return fmt.Sprintf("%v %s %s", dymnstypes.IsValidBuyOrderId(id), c19BoClass(id, dymnstypes.TypeName), c19BoClass(id, dymnstypes.TypeAlias))
+	case "irodenom":
+		ra := string(unhex(f[1]))
+		d := irotypes.IRODenom(ra)
+		back, ok := irotypes.RollappIDFromIRODenom(d)
+		if !ok || back != ra {
+			r.Violate("C19/iro_denom/roundtrip", fmt.Sprintf("%q -> %q -> %q,%v", ra, d, back, ok), line)
+		}
+		return Hex([]byte(d))
+	case "irofrom":
+		d := string(unhex(f[1]))
+		ra, ok := irotypes.RollappIDFromIRODenom(d)
+		if !ok {
+			return "nil"
+		}
+		// monitor: a denom that decodes is exactly the denom of what it decodes to
+		if irotypes.IRODenom(ra) != d {
+			r.Violate("C19/iro_denom/decode-not-inverse", fmt.Sprintf("%q -> %q", d, ra), line)
+		}
+		return Hex([]byte(ra))
+	case "plankey":
+		return Hex(irotypes.PlanKey(fmt.Sprintf("%d", u(1))))
+	case "planrkey":
+		return Hex(irotypes.PlansByRollappKey(string(unhex(f[1]))))
+	}
 	return "bad-op"
+}
+
+var c19Nums = []uint64{0, 1, 2, 9, 10, 11, 99, 100, 101, 999, 1000, 1001, 65535, 1 << 32, 1<<63 - 1, 1 << 63, 1<<64 - 2, 1<<64 - 1,
+	9999999999999999999, 10000000000000000000, 1844674407370955161, 18446744073709551609, 18446744073709551610}
+
+func c19Num(g *Rng) uint64 {
+	if g.Chance(60) {
+		return c19Nums[g.Intn(len(c19Nums))]
+	}
+	return g.BoundaryU64()
+}
+
+// c19IdString: candidate buy-order ids — created ones and near misses of the validator
+func c19IdString(g *Rng) string {
+	p := []string{"10", "20", "30", "1", "", "01", "00", "1o", "10 "}[g.Intn(9)]
+	if g.Chance(70) {
+		p = []string{"10", "20"}[g.Intn(2)]
+	}
+	n := strconv.FormatUint(c19Num(g), 10)
+	switch g.Intn(12) {
+	case 0:
+		n = "0" + n
+	case 1:
+		n = "000" + n
+	case 2:
+		n = n + "0" // may overflow uint64
+	case 3:
+		n = "18446744073709551616"
+	case 4:
+		n = "99999999999999999999999"
+	case 5:
+		n = []string{"", "+1", "-1", "1_0", "0x1", "1e3", " 1", "1 ", "١", "１", "1.0", "a"}[g.Intn(12)]
+	case 6:
+		n = "0"
+	case 7:
+		n = "00"
+	}
+	return p + n
+}
+
+func c19Gen3(r *Run, g *Rng, emit func(kind, line string)) {
+	switch g.Intn(9) {
+	case 0:
+		emit("dec", fmt.Sprintf("dec %d", c19Num(g)))
+	case 1:
+		s := c19IdString(g)
+		if len(s) >= 2 && g.Chance(80) {
+			s = s[2:]
+		}
+		emit("pu64", "pu64 "+Hex([]byte(s)))
+	case 2, 3:
+		emit("boid", fmt.Sprintf("boid %d %d", 1+g.Intn(2), c19Num(g)))
+	case 4, 5:
+		emit("bovalid", "bovalid "+Hex([]byte(c19IdString(g))))
+	case 6:
+		ra := c19RollappID(g)
+		if g.Chance(20) {
+			ra = []string{"", "IRO/", "/", "IRO/x_1-1", "a/b"}[g.Intn(5)]
+		}
+		emit("irodenom", "irodenom "+Hex([]byte(ra)))
+	case 7:
+		d := irotypes.IRODenom(c19RollappID(g))
+		switch g.Intn(8) {
+		case 0:
+			d = d[1:]
+		case 1:
+			d = "iro/" + d[4:]
+		case 2:
+			d = d[:g.Intn(5)]
+		case 3:
+			d = "IRO" + d[4:]
+		case 4:
+			d = "IRO/" + d
+		case 5:
+			d = "future/" + d[4:]
+		}
+		emit("irofrom", "irofrom "+Hex([]byte(d)))
+	case 8:
+		emit("plankey", fmt.Sprintf("plankey %d", c19Num(g)))
+		emit("planrkey", "planrkey "+Hex([]byte(c19RollappID(g))))
+	}
 }
 
 // c19Gen2 emits one op of the second group.
@@ -455,10 +643,14 @@ func TestC19(t *testing.T) {
 		ch := fmt.Sprintf("channel-%d", g.Intn(300))
 		return fmt.Sprintf("%d %s %d %d %s %d", g.Intn(2), Hex([]byte(c19RollappID(g))), g.BoundaryU64(), g.Intn(4), Hex([]byte(ch)), g.BoundaryU64())
 	}
-	n := r.N(7000, 100000)
+	n := r.N(10000, 150000)
 	for i := 0; i < n; i++ {
-		if g.Chance(45) {
-			c19Gen2(r, g, emit)
+		if g.Chance(60) {
+			if g.Chance(50) {
+				c19Gen2(r, g, emit)
+			} else {
+				c19Gen3(r, g, emit)
+			}
 			continue
 		}
 		switch g.Intn(13) {
